@@ -346,15 +346,16 @@ impl Property for TamperGcOutput {
             // GC transactions (discard != 0 and something removed) in processed fragments
             let policy = crate::gcmodel::parse(&cfg.gc_policy).map_err(|e| ("harness:gc-policy-parse".to_string(), e))?;
             let zero = setsum::Setsum::default().hexdigest();
-            let mut candidates: Vec<(usize, usize)> = vec![]; // (fragment index in frags, txn index)
+            let mut candidates: Vec<(usize, usize, bool)> = vec![]; // (fragment index in frags, txn index, has a discard)
             for (fi, f) in frags.iter().enumerate() {
                 if !processed.contains(f) {
                     continue;
                 }
                 let txns = crate::manifest::parse_fragment(f).map_err(|e| ("harness:manifest-parse".to_string(), e))?;
                 for (ti, t) in txns.iter().enumerate().skip(1) {
-                    if !t.removed.is_empty() && !t.added.is_empty() && t.info.get(&'D').map(|d| *d != zero).unwrap_or(false) {
-                        candidates.push((fi, ti));
+                    if !t.removed.is_empty() && !t.added.is_empty() {
+                        let is_gc = t.info.get(&'D').map(|d| *d != zero).unwrap_or(false);
+                        candidates.push((fi, ti, is_gc));
                     }
                 }
             }
@@ -362,8 +363,16 @@ impl Property for TamperGcOutput {
                 o.label("no-gc-transaction-in-a-processed-fragment");
                 return Ok(());
             }
-            let (fsel, tsel, lsel, _, _) = c.picks[0];
-            let (fi, ti) = candidates[vcore::gens::sel(fsel, candidates.len())];
+            let (fsel, tsel, lsel, _, ksel) = c.picks[0];
+            // kind of tamper: drop a policy-required entry, modify the value of an entry, or add a
+            // duplicate of an entry (in an extra output file)
+            let kind = match ksel { 0..=7 => "drop", 8..=11 => "modify", _ => "duplicate" };
+            // dropping is aimed at garbage collections two times out of three (their replay is the
+            // subtle part); modify / duplicate take any compaction
+            let gcs: Vec<(usize, usize, bool)> = candidates.iter().filter(|c| c.2).cloned().collect();
+            let pool_t = if kind == "drop" && !gcs.is_empty() && vcore::gens::sel(lsel, 3) != 0 { gcs } else { candidates };
+            let (fi, ti, is_gc) = pool_t[vcore::gens::sel(fsel, pool_t.len())];
+            o.label(format!("tamper-kind:{kind}:{}", if is_gc { "transaction-with-discard" } else { "transaction-without-discard" }));
             let txns = crate::manifest::parse_fragment(&frags[fi]).unwrap();
             let t = &txns[ti];
             // inputs and outputs of the chosen GC
@@ -388,7 +397,12 @@ impl Property for TamperGcOutput {
                 let Some(p) = find(a) else { continue };
                 let ents = driver::dump_sst(&p).map_err(|e| ("harness:dump".to_string(), e))?;
                 for e in ents.iter() {
-                    if must.contains(&(e.0.clone(), e.1)) {
+                    let ok = match kind {
+                        "drop" => must.contains(&(e.0.clone(), e.1)),
+                        "modify" => e.2.is_some(),
+                        _ => true,
+                    };
+                    if ok {
                         victims.push((a.clone(), e.clone(), ents.clone()));
                     }
                 }
@@ -406,12 +420,47 @@ impl Property for TamperGcOutput {
             // rebuild the output without the victim
             let _ = std::fs::remove_dir_all(&scratch);
             copy_tree(&root, &scratch);
-            let kept: Vec<vcore::refcursor::Entry> = ents.iter().filter(|e| **e != victim).cloned().collect();
+            // the entry as it reads after the tamper (modify: one more byte of value)
+            let modified: vcore::refcursor::Entry = {
+                let mut v = victim.2.clone().unwrap_or_default();
+                v.push(0x5a);
+                (victim.0.clone(), victim.1, Some(v))
+            };
+            let kept: Vec<vcore::refcursor::Entry> = match kind {
+                "drop" => ents.iter().filter(|e| **e != victim).cloned().collect(),
+                "modify" => ents.iter().map(|e| if *e == victim { modified.clone() } else { e.clone() }).collect(),
+                _ => ents.clone(),
+            };
             // When the victim was the only entry the output vanishes altogether: the store never
             // writes an empty sst, so the tampered history simply does not mention the file.
             let vanish = kept.is_empty();
-            o.label(if vanish { "tamper:whole-output-lost" } else { "tamper:one-entry-of-several-lost" });
-            let new_digest = if vanish {
+            if kind == "drop" {
+                o.label(if vanish { "tamper:whole-output-lost" } else { "tamper:one-entry-of-several-lost" });
+            }
+            // duplicate: the genuine output stays; an extra output file holds a second copy
+            let mut extra_digest: Option<String> = None;
+            if kind == "duplicate" {
+                let tmp = scratch.join("tmp").join("tampered-extra.sst");
+                let opts = vsst::tables::BuildOpts { bytes_ri: cfg.bytes_ri, pairs_ri: cfg.pairs_ri, block_size: cfg.target_block_size };
+                let table = vsst::tables::build_sst(&tmp, std::slice::from_ref(&victim), &opts).map_err(|e| ("harness:rebuild".to_string(), format!("{e:?}")))?;
+                let d = table.fast_setsum().hexdigest();
+                drop(table);
+                if find(&d).is_some() {
+                    // a genuine file with exactly this content exists: the copy would not be a new file
+                    o.label("duplicate-collides-with-a-genuine-file");
+                    o.nontrivial = false;
+                    return Ok(());
+                }
+                for dir in ["sst", "trash"] {
+                    let _ = std::fs::copy(&tmp, scratch.join(dir).join(format!("{d}.sst")));
+                }
+                let _ = std::fs::remove_file(&tmp);
+                extra_digest = Some(d);
+            }
+            let old_digest = if kind == "duplicate" { String::from("<none>") } else { old_digest };
+            let new_digest = if kind == "duplicate" {
+                String::new()
+            } else if vanish {
                 String::new()
             } else {
                 let tmp = scratch.join("tmp").join("tampered.sst");
@@ -425,7 +474,13 @@ impl Property for TamperGcOutput {
                 let _ = std::fs::remove_file(&tmp);
                 d
             };
-            let e = setsum_of(&victim);
+            // S(new contents) - S(old contents) of the tampered transaction's output
+            let zero_s = setsum::Setsum::default();
+            let delta = match kind {
+                "drop" => zero_s - setsum_of(&victim),
+                "modify" => setsum_of(&modified) - setsum_of(&victim),
+                _ => setsum_of(&victim),
+            };
             // patch the history: rename the digest everywhere from the tampered transaction on, grow
             // its discard, shrink its output, and shift everything later
             let mut after = false; // past the tampered transaction
@@ -476,34 +531,60 @@ impl Property for TamperGcOutput {
                     };
                     if in_tampered {
                         match p.action {
-                            'O' => shift(p, e, false),
-                            'D' => shift(p, e, true),
+                            'O' => shift(p, delta, true),
+                            'D' => shift(p, delta, false),
                             _ => {}
                         }
                     } else if after {
                         if is_rollup && last_is_tampered {
                             // the roll-up copies I, O, D of the tampered transaction itself
                             match p.action {
-                                'O' => shift(p, e, false),
-                                'D' => shift(p, e, true),
+                                'O' => shift(p, delta, true),
+                                'D' => shift(p, delta, false),
                                 _ => {}
                             }
                         } else if !shift_active {
                             // nothing to adjust any more
                         } else if this_txn_removes_it {
-                            // this transaction removes the (smaller) tampered file: its input is still
-                            // shifted, its discard shrinks by the lost entry, its output is genuine
+                            // this transaction removes the tampered file: its input is still shifted,
+                            // its discard absorbs the difference, its output is genuine
                             match p.action {
-                                'I' => shift(p, e, false),
-                                'D' => shift(p, e, false),
+                                'I' => shift(p, delta, true),
+                                'D' => shift(p, delta, true),
                                 _ => {}
                             }
                         } else if p.action == 'I' || p.action == 'O' {
-                            shift(p, e, false);
+                            shift(p, delta, true);
                         }
                     }
                 }
                 lines.retain(|l| l.as_ref().map(|p| p.action != '\0').unwrap_or(true));
+                if let Some(dx) = &extra_digest {
+                    // the extra file is added by the tampered transaction and listed by every later
+                    // roll-up (nothing ever removes it)
+                    let mut out: Vec<Option<ParsedLine>> = vec![];
+                    let mut txn = 0usize;
+                    let mut placed = false;
+                    for l in lines.into_iter() {
+                        match l {
+                            None => {
+                                txn += 1;
+                                placed = false;
+                                out.push(None);
+                            }
+                            Some(p) => {
+                                let wanted = (i == fi && txn == ti) || (i > fi && txn == 0);
+                                // after the last '+' / '-' line, i.e. before the first info line
+                                if wanted && !placed && p.action != '+' && p.action != '-' {
+                                    out.push(Some(ParsedLine { action: '+', payload: dx.clone() }));
+                                    placed = true;
+                                }
+                                out.push(Some(p));
+                            }
+                        }
+                    }
+                    lines = out;
+                }
                 let _ = std::fs::remove_file(&path);
                 std::fs::write(&path, render(&lines)).map_err(|e| ("harness:io".to_string(), e.to_string()))?;
             }
@@ -542,9 +623,9 @@ impl Property for TamperGcOutput {
                     Ok(())
                 }
                 Ok(()) => Err((
-                    "tamper:gc-output-accepted".to_string(),
+                    format!("tamper:{}-accepted", if kind == "drop" { "gc-output" } else { kind }),
                     format!(
-                        "the offline verifier accepted a self-consistent history in which the garbage collection of transaction {ti} in {} lost {} (required by policy `{}`) from its output {old_digest}",
+                        "the offline verifier accepted a self-consistent history in which the compaction of transaction {ti} in {} had one entry of its output {old_digest} altered ({kind}: {}; policy `{}`)",
                         frags[fi].file_name().unwrap().to_string_lossy(),
                         vsst::tables::show_entry(Some(&victim)),
                         cfg.gc_policy
